@@ -53,7 +53,7 @@ theorem chunk_one (b0 : Nat) (h0 : b0 < 256) :
   refine ⟨?_, ?_, ?_⟩ <;> omega
 
 theorem zeroFill_add3 (n : Nat) : zeroFill (n + 3) = zeroFill n := by
-  simp [zeroFill, Nat.add_mod]
+  simp [zeroFill]
 
 theorem encode_eq_nil (pad : Bool) (l : List Nat) : encode pad l = [] ↔ l = [] := by
   constructor
@@ -220,28 +220,39 @@ theorem decode_reject_early_pad (pad : Bool) (c0 c1 c2 c3 c4 : Nat) (rest : List
     · exact Or.inr (Or.inr (Or.inr val_pad))
   simp [decode, this]
 
+theorem chunk_length (c0 c1 c2 c3 : Nat) (a : List Nat) (h : chunk c0 c1 c2 c3 = some a) :
+    a.length = 3 := by
+  unfold chunk at h
+  cases h1 : pairVal c0 c1 with
+  | none => simp [h1] at h
+  | some x =>
+    cases h2 : pairVal c2 c3 with
+    | none => simp [h1, h2] at h
+    | some y => simp [h1, h2] at h; subst h; rfl
+
 /-- Output length: 3 bytes per (possibly completed) chunk of 4 characters. -/
 theorem decode_length (pad : Bool) : ∀ (input out : List Nat), decode pad input = some out →
     out.length = (input.length + 3) / 4 * 3
   | [], out, h => by simp [decode] at h; subst h; rfl
   | [c0], out, h => by
-    cases pad <;> simp [decode, chunk] at h
-    obtain ⟨a, _, b, _, rfl⟩ := h; rfl
+    cases pad
+    · simp only [decode, Bool.false_eq_true, if_false] at h; exact (chunk_length _ _ _ _ _ h).trans (by simp)
+    · simp [decode] at h
   | [c0, c1], out, h => by
-    cases pad <;> simp [decode, chunk] at h
-    obtain ⟨a, _, b, _, rfl⟩ := h; rfl
+    cases pad
+    · simp only [decode, Bool.false_eq_true, if_false] at h; exact (chunk_length _ _ _ _ _ h).trans (by simp)
+    · simp [decode] at h
   | [c0, c1, c2], out, h => by
-    cases pad <;> simp [decode, chunk] at h
-    obtain ⟨a, _, b, _, rfl⟩ := h; rfl
+    cases pad
+    · simp only [decode, Bool.false_eq_true, if_false] at h; exact (chunk_length _ _ _ _ _ h).trans (by simp)
+    · simp [decode] at h
   | [c0, c1, c2, c3], out, h => by
     cases pad
-    · simp [decode, chunk] at h
-      obtain ⟨a, _, b, _, rfl⟩ := h; rfl
+    · simp only [decode, Bool.false_eq_true, if_false] at h; exact (chunk_length _ _ _ _ _ h).trans (by simp)
     · simp only [decode, if_true, lastPadded] at h
       split at h
       · simp at h
-      · simp [chunk] at h
-        obtain ⟨a, _, b, _, rfl⟩ := h; rfl
+      · exact (chunk_length _ _ _ _ _ h).trans (by simp)
   | c0 :: c1 :: c2 :: c3 :: c4 :: rest, out, h => by
     simp only [decode] at h
     cases hc : chunk c0 c1 c2 c3 with
@@ -253,9 +264,7 @@ theorem decode_length (pad : Bool) : ∀ (input out : List Nat), decode pad inpu
         simp [hc, hd] at h
         subst h
         have ih := decode_length pad (c4 :: rest) b hd
-        have ha : a.length = 3 := by
-          simp [chunk] at hc
-          obtain ⟨x, _, y, _, rfl⟩ := hc; rfl
+        have ha : a.length = 3 := chunk_length _ _ _ _ _ hc
         simp only [List.length_append, ha, ih, List.length_cons]
         omega
 
